@@ -331,6 +331,20 @@ func (vm *VM) setFromReflectValue(r int8, v reflect.Value) registerType {
 	}
 }
 
+// copyOfElement returns the value to assign to the iteration variable of a
+// range statement for the element v of the ranged collection. Struct and array
+// values are kept by value in a general register, so v is copied into a new
+// addressable value; otherwise the variable would alias the element or, if v
+// is not addressable, its fields and elements could not be assigned.
+func copyOfElement(v reflect.Value) reflect.Value {
+	if k := v.Kind(); k == reflect.Struct || k == reflect.Array {
+		e := reflect.New(v.Type()).Elem()
+		e.Set(v)
+		return e
+	}
+	return v
+}
+
 func appendCap(oc, nl int) int {
 	if oc == 0 || nl > oc*2 {
 		return nl
